@@ -175,9 +175,9 @@ PROPS = {
     },
     "C10": {
         "title": "Copying between forests preserves the function",
-        "rules": [rules_ftype.rule_mix_copy, callers_for("C10"), on_program(rules_level.rule_next_level), on_program(rules_dispatch.rule_copy_factory)],
+        "rules": [rules_ftype.rule_mix_copy, callers_for("C10"), on_program(rules_level.rule_next_level), on_program(rules_dispatch.rule_copy_factory), on_program(rules_dispatch.rule_case_scalar)],
         "explanation": STRUCTURAL + ". C10: cross-forest clause — copy_MT, copy_EV_fast, copy_EV<…> read only the source forest and build only in the target forest (copy_inforest: one forest by construction); "
-                       "every value placed in the copy comes from the conversion of a source value, never from the target's transparent edge (who-may-call table for getTransparentEdge / getTransparentNode); level discipline of the copy recursion; the factory constructs each copy implementation only for the forest pairs it was written for (same object / MT source / same edge operation and range / matching edge type).",
+                       "every value placed in the copy comes from the conversion of a source value, never from the target's transparent edge (who-may-call table for getTransparentEdge / getTransparentNode); level discipline of the copy recursion; the factory constructs each copy implementation only for the forest pairs it was written for (same object / MT source / same edge operation and range / matching edge type); under each case of a terminal / range / edge-type switch the value passes through a scalar of that case's family.",
         "assumptions": ["scalar conversions and round-trip identity are not decided", "terminal handles are treated as forest independent"],
         "technique": "forest-indexed typing of node handles over clang CFGs; who-may-call table over the resolved call graph; sign typing of level locals",
         "level_text": "exact static rule check over operations/copy.cc (all instantiations) and the callers of the transparent-edge getters; decides the cross-forest, value-provenance and level-sign clauses only",
@@ -223,8 +223,8 @@ PROPS = {
     },
     "C15": {
         "title": "Index sets number the members of a set 0..n-1 in lexicographic order",
-        "rules": [rules_orphan.rule_terminal_root, on_program(rules_codec.rule_header_type), rules_orphan.rule_index_width, on_program(rules_sibling.rule_getelem_twins)],
-        "explanation": STRUCTURAL + ". C15: the lookup-failure clause (an index lookup that runs into a terminal must fail, not unpack it) and the cardinality-header clause (every accessor of the index-set cardinality header uses one element type).",
+        "rules": [rules_orphan.rule_terminal_root, rules_orphan.rule_level_sync, on_program(rules_codec.rule_header_type), rules_orphan.rule_index_width, on_program(rules_sibling.rule_getelem_twins)],
+        "explanation": STRUCTURAL + ". C15: the lookup-failure clause (an index lookup that runs into a terminal must fail, not unpack it), the level-synchronisation clause (a node is unpacked as the node of level k only after its level was compared with k: index sets skip the level of a single-valued variable — defect D15) and the cardinality-header clause (every accessor of the index-set cardinality header uses one element type).",
         "assumptions": ["the numbering itself (offsets accumulated as edge values) is not decided"],
         "technique": "def-to-use path rule over clang CFGs (non-terminal arm of a handle test must be crossed before unpacking); writer/reader element-type agreement",
         "level_text": "exact static rule check on dd_edge::getElemInt/getElemLong and on the accessors of the index-set cardinality header; decides the lookup-failure and header-type clauses only",
